@@ -296,6 +296,8 @@ pub fn configs(tier: &str, probe: impl Fn() -> Option<Box<dyn Fn(&HistModel, &St
         runs.push(run_config("1 instance, ids {256,257,300}, layouts A,B,C", 1, vec![vec![5, 7, 9, 10]], &[256, 257, 300], 3, 40, probe()));
         runs.push(run_config("2 instances (all / {9}), ids {256,257}, layouts A,B", 2, vec![vec![5, 7, 9, 10], vec![9]], &[256, 257], 2, 40, probe()));
         runs.push(run_config("2 instances (all / all), ids {256,257}, layouts A,B", 2, vec![vec![5, 7, 9, 10], vec![5, 7, 9, 10]], &[256, 257], 2, 40, probe()));
+        runs.push(run_config("2 instances (all / {5,7,10}), ids {256,257,300}, layouts A,B", 2, vec![vec![5, 7, 9, 10], vec![5, 7, 10]], &[256, 257, 300], 2, 48, probe()));
+        runs.push(run_config("1 instance, ids {256,257,300,65535}, layouts A,B", 1, vec![vec![5, 7, 9, 10]], &[256, 257, 300, 65535], 2, 48, probe()));
     } else {
         runs.push(run_config("1 instance, ids {256,257}, layouts A,B,C", 1, vec![vec![5, 7, 9, 10]], &[256, 257], 3, 40, probe()));
     }
@@ -376,6 +378,8 @@ pub fn replay(v: &Value) -> i32 {
         ("2 instances (all / {9}), ids {256,257}, layouts A,B", 2, vec![vec![5, 7, 9, 10], vec![9]], vec![256, 257], 2),
         ("1 instance, ids {256,257}, layouts A,B,C", 1, vec![vec![5, 7, 9, 10]], vec![256, 257], 3),
         ("2 instances (all / all), ids {256,257}, layouts A,B", 2, vec![vec![5, 7, 9, 10], vec![5, 7, 9, 10]], vec![256, 257], 2),
+        ("2 instances (all / {5,7,10}), ids {256,257,300}, layouts A,B", 2, vec![vec![5, 7, 9, 10], vec![5, 7, 10]], vec![256, 257, 300], 2),
+        ("1 instance, ids {256,257,300,65535}, layouts A,B", 1, vec![vec![5, 7, 9, 10]], vec![256, 257, 300, 65535], 2),
     ];
     let (_, ninst, allowed, ids, layouts) = match cfgs.into_iter().find(|c| c.0 == label) {
         Some(c) => c,
